@@ -26,7 +26,7 @@ func init() {
 		},
 		Plan: func(tier string, seed int64) *harness.Plan {
 			sys := newSysCases(tier)
-			nRand := size(tier, 80000, 2500000)
+			nRand := size(tier, 200000, 3000000)
 			return &harness.Plan{
 				N:     sys.n() + nRand,
 				Setup: func(c *harness.Ctx) { hooksOn() },
